@@ -845,6 +845,14 @@ func (runInfo *runInfoStruct) runDefers() {
 			err = runInfo.err
 		}
 	}
+	if len(defers) > 0 {
+		// an interruption that lands while deferred calls run must not be hidden by the error the body failed with
+		select {
+		case <-runInfo.ctx.Done():
+			err = ErrInterrupt
+		default:
+		}
+	}
 	runInfo.rv = rv
 	runInfo.err = err
 }
